@@ -26,7 +26,7 @@ Qed.
    outside braces *)
 Theorem mid_comment_jsim p wd ws tb cm n :
   Forall (fun t => tstr t <> []) (p ++ wd :: ws :: tb) -> Forall newline_ok (p ++ wd :: ws :: tb) ->
-  kind wd = KWord -> kind ws = KWs -> mode_after MOut p = MOut ->
+  swt (kind wd) = true -> kind ws = KWs -> mode_after MOut p = MOut ->
   kind cm = KBlockComment -> tstr cm <> [] ->
   jsim MOut (p ++ wd :: ws :: tb) (p ++ wd :: cm :: shift n (ws :: tb)).
 Proof.
@@ -83,13 +83,13 @@ Section InsDoc.
     no_close c = true ->
     lex_at U a off = Some (p ++ [wd]) -> lex_at U b (off + blen a) = Some (ws :: tb') ->
     lex_at U (a ++ b) off = Some ((p ++ [wd]) ++ ws :: tb') ->
-    kind wd = KWord -> kind ws = KWs -> mode_after MOut p = MOut ->
+    swt (kind wd) = true -> kind ws = KWs -> mode_after MOut p = MOut ->
     exists ts2, lex_at U (a ++ block_comment_text c ++ b) off = Some ts2
                 /\ jsim MOut ((p ++ [wd]) ++ ws :: tb') ts2.
   Proof.
     intros Hc La Lb Lab Kw Ks Hm.
     assert (Ho : last_open_ended (p ++ [wd]) = false).
-    { unfold last_open_ended. rewrite rev_app_distr. cbn [rev app]. unfold open_ended. rewrite Kw. reflexivity. }
+    { unfold last_open_ended. rewrite rev_app_distr. cbn [rev app]. unfold open_ended. destruct (kind wd); try discriminate Kw; reflexivity. }
     pose proof (mid_comment_lex U special_breaks eol_breaks a b off _ _ c Hc La Lb Ho) as L2.
     unfold mid_comment in L2. rewrite insert_at_app in L2.
     pose proof (lex_nonempty U _ _ _ Lab) as N. pose proof (lex_newline_ok U _ _ _ Lab) as O.
@@ -104,7 +104,7 @@ Section InsDoc.
     parse_frontmatter cfg (a ++ b) = None -> parse_frontmatter cfg (a ++ block_comment_text c ++ b) = None ->
     lex_at U a 0 = Some (p ++ [wd]) -> lex_at U b (blen a) = Some (ws :: tb') ->
     lex_at U (a ++ b) 0 = Some ((p ++ [wd]) ++ ws :: tb') ->
-    kind wd = KWord -> kind ws = KWs -> mode_after MOut p = MOut ->
+    swt (kind wd) = true -> kind ws = KWs -> mode_after MOut p = MOut ->
     OR same_events (events U cfg (a ++ b)) (events U cfg (a ++ block_comment_text c ++ b)).
   Proof.
     intros Hc F1 F2 La Lb Lab Kw Ks Hm.
@@ -118,7 +118,7 @@ Section InsDoc.
     parse_frontmatter cfg s = Some fm -> cook_text fm = a ++ b -> a ++ b <> [] ->
     lex_at U a (cook_off fm) = Some (p ++ [wd]) -> lex_at U b (cook_off fm + blen a) = Some (ws :: tb') ->
     lex_at U (a ++ b) (cook_off fm) = Some ((p ++ [wd]) ++ ws :: tb') ->
-    kind wd = KWord -> kind ws = KWs -> mode_after MOut p = MOut ->
+    swt (kind wd) = true -> kind ws = KWs -> mode_after MOut p = MOut ->
     OR same_events (events U cfg s)
                    (events U cfg (take_bytes s (cook_off fm) ++ a ++ block_comment_text c ++ b)).
   Proof.
